@@ -147,7 +147,10 @@ def run(ctx):
         return out, var
 
     (qi, qvar), (qp, _) = qual_rule(inj_f, inj_f.pos_params[0]), qual_rule(ps, ps.pos_params[0])
-    ctx.check("C19.R3", "a reference is qualified by the same rule in both walkers", qi == qp and len(qi) == 1, inj_f.where(), f"_inject_schema qualifies when {qi}; _parse_schema when {qp}", "the injector looks for a different full name than the parser resolves: the loaded type is never inlined (or inlined at the wrong place)")
+    if not qp or not qi:
+        ctx.unrecognised("C19.R3", "reference qualification", (ps if not qp else inj_f).where(), f"the statement that prefixes a reference with the namespace was not found in {'_parse_schema' if not qp else '_inject_schema'}")
+    else:
+        ctx.check("C19.R3", "a reference is qualified by the same rule in both walkers", qi == qp and len(qi) == 1, inj_f.where(), f"_inject_schema qualifies when {qi}; _parse_schema when {qp}", "the injector looks for a different full name than the parser resolves: the loaded type is never inlined (or inlined at the wrong place)")
     # record fields are walked under element 0 of schema_name(<schema>, <enclosing namespace>) in both walkers
     def field_ns_ok(f, callee, pos, schema_param):
         calls = [c for c in ast.walk(f.node) if isinstance(c, ast.Call) and isinstance(c.func, ast.Name) and c.func.id == callee and len(c.args) > pos and "'type'" in norm(c.args[0]) + "'type'" * (callee == "parse_field")]
@@ -163,7 +166,10 @@ def run(ctx):
     else:
         ctx.check("C19.R3", "both walkers take a record's namespace from schema_name (dotted names included)", ok_i and ok_p, inj_f.where() if not ok_i else ps.where(), f"namespace for record fields from schema_name: injector {ok_i}, parser {ok_p}", "a record whose namespace is carried by a dotted name would be walked with the wrong namespace: its relative references never match the loaded type")
     ki, kp = str_consts_compared(inj_f.node, "schema_type"), str_consts_compared(ps.node, "schema_type")
-    ctx.check("C19.R3", "both walkers know the same schema kinds", ki == kp, inj_f.where(), f"_inject_schema kinds {sorted(ki)} vs _parse_schema {sorted(kp)}", "a kind the parser accepts is not walked by the injector")
+    if not ki or not kp:
+        ctx.unrecognised("C19.R3", "schema kinds", (ps if not kp else inj_f).where(), "no comparison of the schema kind with string literals found")
+    else:
+        ctx.check("C19.R3", "both walkers know the same schema kinds", ki == kp, inj_f.where(), f"_inject_schema kinds {sorted(ki)} vs _parse_schema {sorted(kp)}", "a kind the parser accepts is not walked by the injector")
     icfg = cfg_of(inj_f)
     ok = any(isinstance(n, ast.Return) and n.value is not None and norm(n.value) == "(inner_schema, True)" and bool(eq_texts(qvar or "outer_schema", "inner_schema['name']") & true_facts(icfg, icfg.node_of(n))) for n in walk_local(inj_f.node))
     ctx.check("C19.R3", "the reference whose qualified name equals the loaded type's full name is replaced by its definition", ok, inj_f.where(), "_inject_schema: replacement", "the definition is not inlined at the first reference")
